@@ -184,11 +184,270 @@ theorem realize_spec (fs : List Force) (st : St) (g : Nat) (h : Inv fs st) :
           | true => exact absurd ⟨by omega, by omega, hp⟩ hn
         rw [h.nopos hno] at hv0; cases hv0
     · intro hno; exact ecv' (h.nopos hno)
-    · intro h7; simp only at h7 ⊢; rw [etot, ev]; exact h.tot (by omega)
-    · intro h7; simp only; rw [etot]; exact h.tot (by omega)
+    · intro h7
+      have h7' : 7 ≤ max st.stage g := h7
+      show st1.total = canonical fs st1.vars
+      rw [etot, ev]; exact h.tot (by omega)
+    · intro h7; show st1.total = _; rw [etot]; exact h.tot (by omega)
 
 /-- the totals a realization to Dynamics delivers are the canonical totals of the current values -/
 theorem result_eq_canonical (fs : List Force) (st : St) (h : Inv fs st) : result fs st = canonical fs st.vars :=
   (realize_spec fs st 7 h).2.2 (Nat.le_refl 7)
+
+
+/-! ## every operation preserves the invariant -/
+
+theorem getD_mem {fs : List Force} {i : Nat} (h : i < fs.length) : fs.getD i default ∈ fs := by
+  have : fs.getD i default = fs[i] := by simp [List.getD_eq_getElem?_getD, List.getElem?_eq_getElem h]
+  rw [this]; exact List.getElem_mem h
+
+theorem posContribs_congr (fs : List Force) (hw : WF fs) (v w : Vars) (he : w.enabled = v.enabled)
+    (ht : w.t = v.t) (hq : w.q = v.q)
+    (hp : ∀ i, (fs.getD i default).posOnly = true → w.params.getD i [] = v.params.getD i []) :
+    posContribs fs w = posContribs fs v := by
+  unfold posContribs enabledIdx
+  rw [he]
+  apply List.map_congr_left
+  intro i hi
+  have hf := (List.mem_filter.mp hi)
+  have hlt : i < fs.length := List.mem_range.mp hf.1
+  have hpo : (fs.getD i default).posOnly = true := by
+    have := hf.2; simp only [Bool.and_eq_true] at this; exact this.2
+  have hng : (fs.getD i default).gravity = false := by
+    cases hg : (fs.getD i default).gravity with
+    | false => rfl
+    | true => have := hw.grav _ (getD_mem hlt) hg; rw [this] at hpo; cases hpo
+  unfold contrib
+  rw [inputs_congr fs v w i (hp i hpo) (fun hg => by rw [hng] at hg; cases hg) ht hq
+        (fun _ hx => by rw [hpo] at hx; cases hx)]
+
+/-- a variable change that invalidates stage `g ≤ Dynamics` -/
+theorem Inv.change {fs : List Force} (hw : WF fs) {st : St} (h : Inv fs st) (g : Nat) (hg7 : g ≤ 7) (v' : Vars)
+    (hz : ∀ i, (fs.getD i default).gravity = true →
+        v'.zeroMag.getD i false = st.vars.zeroMag.getD i false ∧ v'.params.getD i [] = st.vars.params.getD i [])
+    (htq : 6 ≤ g → v'.t = st.vars.t ∧ v'.q = st.vars.q ∧ v'.enabled = st.vars.enabled ∧
+        ∀ i, (fs.getD i default).posOnly = true → v'.params.getD i [] = st.vars.params.getD i []) :
+    Inv fs { (st.inval g) with vars := v' } := by
+  have hfresh : ∀ i, (st.inval g).lazyFresh.getD i false = true →
+      st.lazyFresh.getD i false = true ∧ ¬(g ≤ 5 ∧ 5 ≤ st.stage) := by
+    intro i hf
+    unfold St.inval at hf
+    simp only at hf
+    by_cases hc : g ≤ 5 ∧ 5 ≤ st.stage
+    · rw [if_pos hc, getD_map_const_false] at hf; cases hf
+    · rw [if_neg hc] at hf; exact ⟨hf, hc⟩
+  refine ⟨⟨?_, h.l.lenS, ?_, ?_, ?_⟩, ?_, h.nopos, ?_⟩
+  · show (st.inval g).lazyFresh.length = fs.length
+    unfold St.inval; simp only; split <;> simp [h.l.lenF]
+  · intro i hgr hf
+    obtain ⟨hf0, hnc⟩ := hfresh i hf
+    have h5 : 5 ≤ st.stage := by
+      by_cases hlt : st.stage < 5
+      · rw [h.l.low hlt i] at hf0; cases hf0
+      · omega
+    have hg6 : 6 ≤ g := by omega
+    obtain ⟨ht, hq, _, _⟩ := htq hg6
+    show st.lazySnap.getD i [] = inputs fs v' i
+    rw [h.l.lazy i hgr hf0]
+    exact (inputs_congr fs st.vars v' i (hz i hgr).2 (fun _ => (hz i hgr).1) ht hq
+      (fun hx => by rw [hgr] at hx; cases hx)).symm
+  · intro hlt i
+    show (st.inval g).lazyFresh.getD i false = false
+    have hlt' : min st.stage (g - 1) < 5 := hlt
+    unfold St.inval; simp only
+    by_cases hc : g ≤ 5 ∧ 5 ≤ st.stage
+    · rw [if_pos hc]; exact getD_map_const_false _ _
+    · rw [if_neg hc]; exact h.l.low (by omega) i
+  · intro i hgr hzm
+    show st.lazySnap.getD i [] = inputs fs v' i
+    have hzm' : st.vars.zeroMag.getD i false = true := by rw [← (hz i hgr).1]; exact hzm
+    rw [h.l.zero i hgr hzm']
+    exact (inputs_zero fs st.vars v' i hgr (hz i hgr).2 hzm hzm').symm
+  · intro hv h5
+    have h5' : 5 ≤ min st.stage (g - 1) := h5
+    obtain ⟨ht, hq, he, hp⟩ := htq (by omega)
+    show st.cacheTotal = posContribs fs v'
+    rw [h.cache hv (by omega)]
+    exact (posContribs_congr fs hw st.vars v' he ht hq hp).symm
+  · intro h7
+    have h7' : 7 ≤ min st.stage (g - 1) := h7
+    omega
+
+theorem getD_setParamVal_ne (ps : List (List Nat)) (i j v k : Nat) (h : k ≠ i) :
+    (setParamVal ps i j v).getD k [] = ps.getD k [] := by
+  unfold setParamVal; exact getD_setAt_ne _ _ _ _ _ h
+
+theorem Inv.ensure {fs : List Force} {st : St} (h : Inv fs st) (i : Nat) (hs : 5 ≤ st.stage)
+    (hg : (fs.getD i default).gravity = true) : Inv fs (st.ensure fs i) ∧ (st.ensure fs i).vars = st.vars ∧
+      (st.ensure fs i).stage = st.stage := by
+  obtain ⟨a, b, _⟩ := ensure_spec fs st i h.l hs hg
+  refine ⟨⟨a, ?_, ?_, ?_⟩, b.vars, b.stage⟩
+  · intro hv h5; rw [b.ct, b.vars]; exact h.cache (by rw [← b.cv]; exact hv) (by rw [← b.stage]; exact h5)
+  · intro hno; rw [b.cv]; exact h.nopos hno
+  · intro h7; rw [b.tot, b.vars]; exact h.tot (by rw [← b.stage]; exact h7)
+
+theorem Inv.step {fs : List Force} (hw : WF fs) {st : St} (h : Inv fs st) (op : Op) : Inv fs (C16.step fs st op) := by
+  cases op with
+  | setT v => exact h.change hw 4 (by omega) _ (fun _ _ => ⟨rfl, rfl⟩) (fun h6 => absurd h6 (by omega))
+  | setQ v => exact h.change hw 5 (by omega) _ (fun _ _ => ⟨rfl, rfl⟩) (fun h6 => absurd h6 (by omega))
+  | setU v => exact h.change hw 6 (by omega) _ (fun _ _ => ⟨rfl, rfl⟩) (fun _ => ⟨rfl, rfl, rfl, fun _ _ => rfl⟩)
+  | setZ v => exact h.change hw 7 (by omega) _ (fun _ _ => ⟨rfl, rfl⟩) (fun _ => ⟨rfl, rfl, rfl, fun _ _ => rfl⟩)
+  | setParam i j v =>
+    simp only [C16.step]
+    cases hj : ((fs.getD i default).paramStages)[j]? with
+    | none => exact h
+    | some g =>
+      simp only
+      by_cases hgr : (fs.getD i default).gravity = true
+      · rw [if_pos hgr]; exact h
+      · rw [if_neg hgr]
+        have hgm : g ∈ (fs.getD i default).paramStages := List.mem_of_getElem? hj
+        have hlt : i < fs.length := by
+          by_cases hi : i < fs.length
+          · exact hi
+          · have : fs.getD i default = default := by
+              simp [List.getD_eq_getElem?_getD, List.getElem?_eq_none (Nat.le_of_not_lt hi)]
+            rw [this] at hgm; cases hgm
+        refine h.change hw g (hw.dyn _ (getD_mem hlt) g hgm) _ ?_ ?_
+        · intro k hk
+          have : k ≠ i := fun hki => by subst hki; exact hgr hk
+          exact ⟨rfl, getD_setParamVal_ne _ _ _ _ _ this⟩
+        · intro h6
+          refine ⟨rfl, rfl, rfl, ?_⟩
+          intro k hk
+          have : k ≠ i := fun hki => by
+            subst hki
+            have := hw.pos _ (getD_mem hlt) hk g hgm
+            omega
+          exact getD_setParamVal_ne _ _ _ _ _ this
+  | setEnabled i b =>
+    simp only [C16.step]
+    have h3 : Inv fs (st.inval 3) := by
+      have := h.change hw 3 (by omega) st.vars (fun _ _ => ⟨rfl, rfl⟩) (fun h6 => absurd h6 (by omega))
+      exact this
+    split
+    · have h3' := h.change hw 3 (by omega) { st.vars with enabled := setAt st.vars.enabled i b }
+        (fun _ _ => ⟨rfl, rfl⟩) (fun h6 => absurd h6 (by omega))
+      refine ⟨⟨h3'.l.lenF, h3'.l.lenS, h3'.l.lazy, h3'.l.low, h3'.l.zero⟩, ?_, ?_, ?_⟩
+      · intro hv h5
+        have : (5 : Nat) ≤ min st.stage (3 - 1) := h5
+        omega
+      · intro hno; show (if anyPosOnly fs = true then false else (st.inval 3).cachedValid) = false
+        rw [hno]; exact h.nopos hno
+      · intro h7
+        have : (7 : Nat) ≤ min st.stage (3 - 1) := h7
+        omega
+    · exact h3
+  | gravSet i j v zero =>
+    simp only [C16.step]
+    by_cases hgr : (fs.getD i default).gravity = true
+    · rw [if_pos hgr]
+      have hi := gravity_lt hgr
+      -- abbreviations
+      have hst6 : ∀ x, x = min st.stage (7 - 1) → x ≤ 6 := fun x hx => by omega
+      refine ⟨⟨?_, ?_, ?_, ?_, ?_⟩, ?_, h.nopos, ?_⟩
+      · show (if 7 ≤ 5 ∧ 5 ≤ st.stage then _ else setAt st.lazyFresh i false).length = fs.length
+        rw [if_neg (by omega)]; simp [h.l.lenF]
+      · show (if zero = true then setAt st.lazySnap i _ else st.lazySnap).length = fs.length
+        split <;> simp [h.l.lenS]
+      · intro k hk hf
+        have hf' : (setAt st.lazyFresh i false).getD k false = true := by
+          have : (if 7 ≤ 5 ∧ 5 ≤ st.stage then (setAt st.lazyFresh i false).map (fun _ => false)
+                  else setAt st.lazyFresh i false).getD k false = true := hf
+          rwa [if_neg (by omega)] at this
+        have hki : k ≠ i := by
+          intro hki; subst hki
+          rw [getD_setAt_self _ _ _ _ (by rw [h.l.lenF]; exact hi)] at hf'; cases hf'
+        rw [getD_setAt_ne _ _ _ _ _ hki] at hf'
+        have hsn : (if zero = true then setAt st.lazySnap i
+              (inputs fs { st.vars with params := setParamVal st.vars.params i j v, zeroMag := setAt st.vars.zeroMag i zero } i)
+              else st.lazySnap).getD k [] = st.lazySnap.getD k [] := by
+          split
+          · exact getD_setAt_ne _ _ _ _ _ hki
+          · rfl
+        show (if zero = true then _ else st.lazySnap).getD k [] = _
+        rw [hsn, h.l.lazy k hk hf']
+        exact (inputs_congr fs st.vars _ k (getD_setParamVal_ne _ _ _ _ _ hki)
+          (fun _ => getD_setAt_ne _ _ _ _ _ hki) rfl rfl (fun hx => by rw [hk] at hx; cases hx)).symm
+      · intro hlt k
+        have hlt' : min st.stage (7 - 1) < 5 := hlt
+        show (if 7 ≤ 5 ∧ 5 ≤ st.stage then _ else setAt st.lazyFresh i false).getD k false = false
+        rw [if_neg (by omega)]
+        by_cases hki : k = i
+        · subst hki
+          rw [getD_setAt]; split
+          · rfl
+          · exact h.l.low (by omega) k
+        · rw [getD_setAt_ne _ _ _ _ _ hki]; exact h.l.low (by omega) k
+      · intro k hk hzm
+        show (if zero = true then _ else st.lazySnap).getD k [] = _
+        by_cases hki : k = i
+        · subst hki
+          have hz : zero = true := by
+            have : (setAt st.vars.zeroMag k zero).getD k false = true := hzm
+            rw [getD_setAt] at this
+            split at this
+            · exact this
+            · rename_i hn
+              -- beyond the list: the flag cannot be read as true
+              have hlen : ¬ k < st.vars.zeroMag.length := fun hx => hn ⟨rfl, hx⟩
+              have : st.vars.zeroMag.getD k false = false := by
+                simp [List.getD_eq_getElem?_getD, List.getElem?_eq_none (Nat.le_of_not_lt hlen)]
+              rw [this] at *; contradiction
+          rw [if_pos hz]
+          exact getD_setAt_self _ _ _ _ (by rw [h.l.lenS]; exact hi)
+        · have hzm' : st.vars.zeroMag.getD k false = true := by
+            have : (setAt st.vars.zeroMag i zero).getD k false = true := hzm
+            rwa [getD_setAt_ne _ _ _ _ _ hki] at this
+          have hsn : (if zero = true then setAt st.lazySnap i
+                (inputs fs { st.vars with params := setParamVal st.vars.params i j v, zeroMag := setAt st.vars.zeroMag i zero } i)
+                else st.lazySnap).getD k [] = st.lazySnap.getD k [] := by
+            split
+            · exact getD_setAt_ne _ _ _ _ _ hki
+            · rfl
+          rw [hsn, h.l.zero k hk hzm']
+          exact (inputs_zero fs st.vars _ k hk (getD_setParamVal_ne _ _ _ _ _ hki) hzm hzm').symm
+      · intro hv h5
+        have h5' : 5 ≤ min st.stage (7 - 1) := h5
+        show st.cacheTotal = posContribs fs _
+        rw [h.cache hv (by omega)]
+        refine (posContribs_congr fs hw st.vars _ rfl rfl rfl ?_).symm
+        intro k hk
+        have hki : k ≠ i := by
+          intro hki; subst hki
+          have hlt : k < fs.length := hi
+          have := hw.grav _ (getD_mem hlt) hgr
+          rw [this] at hk; cases hk
+        exact getD_setParamVal_ne _ _ _ _ _ hki
+      · intro h7
+        have : 7 ≤ min st.stage (7 - 1) := h7
+        omega
+    · rw [if_neg hgr]; exact h
+  | realize g => exact (realize_spec fs st g h).1
+  | gravQuery i =>
+    simp only [C16.step]
+    split
+    · rename_i hc; exact (h.ensure i hc.1 hc.2).1
+    · exact h
+  | peQuery =>
+    simp only [C16.step]
+    split
+    · rename_i hs
+      have key : ∀ (l : List Nat) (s : St), Inv fs s → 5 ≤ s.stage →
+          (∀ i ∈ l, (fs.getD i default).gravity = true) → Inv fs (l.foldl (fun acc i => acc.ensure fs i) s) := by
+        intro l
+        induction l with
+        | nil => intro s hs' _ _; exact hs'
+        | cons a as ih =>
+          intro s hs' h5 hall
+          simp only [List.foldl_cons]
+          obtain ⟨a1, _, a3⟩ := hs'.ensure a h5 (hall a (by simp))
+          exact ih _ a1 (by rw [a3]; exact h5) (fun i hi => hall i (by simp [hi]))
+      apply key _ _ h hs
+      intro i hi
+      have := (List.mem_filter.mp hi).2
+      simp only [Bool.and_eq_true] at this
+      exact this.2
+    · exact h
 
 end C16
